@@ -181,3 +181,137 @@ def drawn (v : Variant) : Waiter → List Iter → List Iter
 def Iter.tok (it : Iter) : Int := it.env.tok.getD 0
 
 end Pandora.Model.C04
+
+namespace Pandora.Model.C04
+
+/-! ### one loop iteration as a function (regenerated counterpart: `Gen.Waiter.iteration`) -/
+
+/-- `Waiter.IsFinished(ctx)`; `left` = `w.sched.Left()` -/
+def isFinished (ctxDone : Bool) (left : Int) : Bool := if ctxDone then true else left == 0
+
+/-- what one pass through `for !waiter.IsFinished(ctx) { func() error {…}() }` of `instance.Run` does -/
+inductive Outcome
+  /-- `IsFinished` answered true: the loop ends, `Run` returns `ctx.Err()` -/
+  | loopEnd
+  /-- `provider.Acquire()` failed: `Run` returns `outOfAmmoErr` -/
+  | outOfAmmo
+  /-- `Wait` returned false: the closure returns nil, next pass -/
+  | skip
+  /-- `gun.Shoot(ammo)` -/
+  | shoot
+  /-- `aggregator.Report(s)`, no Shoot -/
+  | discard (s : DiscardSample)
+deriving Repr, DecidableEq
+
+/-- one pass of the loop: new waiter state and what happened -/
+def iteration (v : Variant) (discardOverflow : Bool) (w : Waiter) (it : Iter) : Waiter × Outcome :=
+  if it.finished then (w, .loopEnd) else
+  if !it.ammoOk then (w, .outOfAmmo) else
+  let r := waitV v w it.env
+  if !r.ok then (r.w, .skip) else
+  if fires discardOverflow (isSlowDown r.w it.ctxDoneSlow) then (r.w, .shoot)
+  else (r.w, .discard discardedShootSample)
+
+/-- `runLoop` is the iteration of `iteration` -/
+theorem runLoop_cons (v : Variant) (d : Bool) (w : Waiter) (it : Iter) (rest : List Iter) :
+    runLoop v d w (it :: rest) =
+      match iteration v d w it with
+      | (_, .loopEnd) => ([], .loopEnd)
+      | (_, .outOfAmmo) => ([], .outOfAmmo)
+      | (w', .skip) => runLoop v d w' rest
+      | (w', .shoot) => (Ev.shoot it :: (runLoop v d w' rest).1, (runLoop v d w' rest).2)
+      | (w', .discard s) => (Ev.discard it s :: (runLoop v d w' rest).1, (runLoop v d w' rest).2) := by
+  unfold iteration
+  rw [runLoop]
+  by_cases hf : it.finished = true
+  · simp [hf]
+  · by_cases ha : it.ammoOk = true
+    · by_cases hk : (waitV v w it.env).ok = true
+      · by_cases hs : fires d (isSlowDown (waitV v w it.env).w it.ctxDoneSlow) = true <;> simp [hf, ha, hk, hs]
+      · simp [hf, ha, hk]
+    · simp [hf, ha]
+
+/-! ### the effective `discard_overflow` of a pool (cli/cli.go `readConfig`, core/engine/engine.go) -/
+
+/-- `readConfig`: a pool section that does not mention `discard_overflow` gets `true`; one that does keeps its value.
+The decoded `InstancePoolConfig.DiscardOverflow` is copied to `instanceSharedDeps.discardOverflow` (`startInstances`). -/
+def effectiveDiscard (given : Option Bool) : Bool :=
+  match given with
+  | some b => b
+  | none => true
+
+/-! ### several instances on one shared schedule
+
+The schedule is the list of tokens it has not handed out yet (`Next` pops the head, `Left() == 0` iff the list is empty: the
+`core.Schedule` contract, C02/C03).  An instance touches the schedule at two points of a pass: `IsFinished` (reads `Left`) and
+`Wait` (calls `Next` unless the context is already done).  A pool step is ONE such point of ONE instance, so every
+interleaving of the instances' schedule accesses is a list of steps (the instance count is unbounded: any `Nat` is an instance).
+-/
+
+inductive Phase
+  /-- at the loop head (about to call `IsFinished`) -/
+  | head
+  /-- ammo acquired, about to call `Wait` -/
+  | waiting
+  /-- the loop has ended -/
+  | exited
+deriving Repr, DecidableEq
+
+/-- what the environment supplies to one pool step -/
+structure PStep where
+  /-- which instance moves -/
+  inst : Nat
+  /-- head step: `ctx.Done()` ready in `IsFinished` -/
+  ctxDoneHead : Bool := false
+  /-- the data of the pass that do not come from the schedule (`finished` and `env.tok` are ignored) -/
+  it : Iter := {}
+deriving Repr, DecidableEq, Inhabited
+
+structure PState where
+  /-- tokens not handed out yet -/
+  sched : List Int
+  phase : Nat → Phase
+  /-- tokens handed out so far, with the instance that drew each, in order -/
+  out : List (Nat × Int)
+  /-- per instance: the passes completed so far (the history `runLoop` is run on) -/
+  hist : Nat → List Iter
+
+def PState.init (toks : List Int) : PState :=
+  { sched := toks, phase := fun _ => .head, out := [], hist := fun _ => [] }
+
+def upd {α : Type} (f : Nat → α) (i : Nat) (a : α) : Nat → α := fun j => if j = i then a else f j
+
+/-- the completed pass recorded for an instance whose `Wait` was entered: `tok` = what `Next` returned (none: not called, or
+the schedule was finished) -/
+def passOf (it : Iter) (tok : Option Int) : Iter :=
+  { finished := false, ammoOk := true, env := { it.env with tok := tok }, ctxDoneSlow := it.ctxDoneSlow, dur := it.dur }
+
+/-- the pass that ends the loop (`IsFinished` true, or out of ammo) -/
+def exitPass (it : Iter) (fin : Bool) : Iter := { it with finished := fin }
+
+def PState.record (st : PState) (i : Nat) (ph : Phase) (x : Iter) : PState :=
+  { st with phase := upd st.phase i ph, hist := upd st.hist i (st.hist i ++ [x]) }
+
+def pstep (st : PState) (s : PStep) : PState :=
+  match st.phase s.inst with
+  | .exited => st
+  | .head =>
+    if isFinished s.ctxDoneHead st.sched.length then st.record s.inst .exited (exitPass s.it true)
+    else if !s.it.ammoOk then st.record s.inst .exited (exitPass s.it false)
+    else { st with phase := upd st.phase s.inst .waiting }
+  | .waiting =>
+    -- `Wait` returns at its entry `select` when the context is done: `Next` is not called
+    if s.it.env.ctxDone then st.record s.inst .head (passOf s.it none)
+    else
+      match st.sched with
+      | [] => st.record s.inst .head (passOf s.it none)
+      | t :: rest =>
+        ({ st with sched := rest, out := st.out ++ [(s.inst, t)] } : PState).record s.inst .head (passOf s.it (some t))
+
+def prun (st : PState) (steps : List PStep) : PState := steps.foldl pstep st
+
+/-- the actions of instance `i` after the given steps -/
+def poolEvents (v : Variant) (d : Bool) (toks : List Int) (steps : List PStep) (i : Nat) : List Ev :=
+  (runLoop v d Waiter.init ((prun (PState.init toks) steps).hist i)).1
+
+end Pandora.Model.C04
